@@ -108,6 +108,22 @@ mod kani_harness {
 		kani::cover!(r.is_none());
 	}
 
+	// C19: ids beyond the last tile of zoom 31 (what an untrusted PMTiles directory can contain) are an error, never a panic.
+	// (Valid ids run the Hilbert loop with a symbolic trip count - c19_tile_id_to_coord_any above never finished; they are
+	// covered per zoom level by the c01_tile_id_* instances.)
+	#[kani::proof]
+	#[kani::unwind(34)]
+	#[kani::stub(std::fmt::format, crate::verif_kani::stubs::fmt_format)]
+	#[kani::stub(std::backtrace::Backtrace::capture, crate::verif_kani::stubs::backtrace_capture)]
+	fn c19_tile_id_to_coord_too_large() {
+		let id: u64 = kani::any();
+		kani::assume(id >= 6148914691236517205); // (4^32 - 1) / 3
+		let r = ok(tile_id_to_coord(id));
+		assert!(r.is_none(), "an id beyond zoom 31 is decoded");
+		kani::cover!(id == u64::MAX);
+		kani::cover!(id == 6148914691236517205);
+	}
+
 	#[kani::proof]
 	#[kani::unwind(4)]
 	#[kani::stub(std::fmt::format, crate::verif_kani::stubs::fmt_format)]
